@@ -28,6 +28,10 @@ X  context expressions: 11 spellings of a `with` expression (literal, positional
    mixed, nested arithmetic, non-call if-expressions; arguments computed at run time and inexact
    under a 3-bit context) x 4 narrow ambients (caller context, enclosing `with`, declared function
    context, callee reached from inside a `with`).
+I  integer-producing forms: 16 programs observing an index / count without an arithmetic node
+   (enumerate, range/1-3, len, size, dim, loop indices; returned, bound plainly, used as list index or
+   slice bound) on lists of length 4-6 (> 2**p) x {caller, declared, `with`} x 4 contexts of
+   precision 1 and 2.
 D  call graphs f -> g -> h: every choice of declared context (none / a float / REAL) for
    each of the three functions x every choice of `with` block (none / 2 contexts) around
    each of the two call sites (243 programs), h writing a list f reads afterwards.
@@ -255,7 +259,7 @@ class Check(BaseCheck):
     def selfcheck(self):
         texts = [t for t in EXPR_CTXS + STMT_CTXS if t] + \
                 ['fp.MPFixedContext(-3, fp.RM.RAZ)', 'fp.MPFloatContext(3, fp.RM.RTP)', 'fp.IEEEContext(3, 7, fp.RM.RNE)',
-                 'fp.FP64']
+                 'fp.FP64'] + G.TINY
         for t in texts:
             rc, mc = contexts(t)
             for k in range(-200, 201):
@@ -274,7 +278,7 @@ class Check(BaseCheck):
 
     # ---- shards -----------------------------------------------------------------
     def shards(self):
-        sh = [('T', i, 8) for i in range(8)] + [('D', i, 4) for i in range(4)] + [('X', 0, 1)]
+        sh = [('T', i, 8) for i in range(8)] + [('D', i, 4) for i in range(4)] + [('X', 0, 1), ('I', 0, 1)]
         ne = 24 if self.quick else 64
         sh += [('E', i, ne) for i in range(ne)]
         for n in self.sizes:
@@ -299,6 +303,8 @@ class Check(BaseCheck):
             self.run_callgraphs(r, shard[1], shard[2])
         elif shard[0] == 'X':
             self.run_ctxexprs(r)
+        elif shard[0] == 'I':
+            self.run_intforms(r)
         else:
             self.run_stmts(r, *shard[1:])
         return r
@@ -452,6 +458,24 @@ class Check(BaseCheck):
                     for ctext in ctxs:
                         self.one(r, 'X', label, src, real, prog, fname, text, inp, ctext)
         r.sample({'part': 'X', 'example': progs[2][2]})
+
+    # ---- I: integer-producing forms on lists longer than 2**p under precision-p contexts ----
+    def run_intforms(self, r):
+        progs = list(G.intforms())
+        vals = ['1', '2', '3', '1/2', '-1', '3/2']
+        inputs = [['1', '2', vals[:n]] for n in (4, 5, 6)] + [['1', '2', ['1/3', '1']], ['1', '2', []]]
+        for b in range(0, len(progs), 27):
+            chunk = progs[b:b + 27]
+            real, prog, src = self.load_batch(r, '', [(f, t) for f, _, t, _, _ in chunk])
+            for fname, label, text, amb, c in chunk:
+                if fname not in real:
+                    continue
+                r.count('programs')
+                ctxs = G.TINY if amb == 'caller' else [None, 'fp.REAL', 'fp.MPFloatContext(1)']
+                for inp in inputs:
+                    for ctext in ctxs:
+                        self.one(r, 'I', label, src, real, prog, fname, text, inp, ctext)
+        r.sample({'part': 'I', 'example': progs[3][2]})
 
     # ---- replay -----------------------------------------------------------------
     def replay(self, case):
